@@ -321,6 +321,16 @@ def run(ctx):
         stats["outcomes"].add((ev[0], rec.get("success"), rec.get("accepted"), bool(rec.get("refused_connected")), len(rec["connected"])))
 
     res = explore.bfs(lambda h: build(pairs, h), enabled, lambda w: w.canon(), on_tr, depth)
+    # second BFS: names with characters the id function escapes (two processes of that engine and an unrelated engine)
+    pairs2 = [("a b", "c/d"), ("a b", "c/d"), ("b", "b")]
+
+    def on_tr2(hist, ev, nxt):
+        rec = nxt.obs[-1]
+        for sig, what in rec["problems"]:
+            ctx.violation(sig + ":escaped-names", what,
+                          {"part": "b", "pairs": [list(p) for p in pairs2], "history": [list(e) for e in hist] + [list(ev)]})
+    res2 = explore.bfs(lambda h: build(pairs2, h), enabled, lambda w: w.canon(), on_tr2, depth)
+    ctx.note(f"[C38] (b2) clients={pairs2}: states={res2.states} transitions={res2.transitions}")
     ctx.note(f"[C38] (b) clients={pairs} depth={depth}: states={res.states} transitions={res.transitions} max_depth={res.max_depth} "
              f"cut_at_bound={res.frontier_at_bound} register-refused-while-connected={stats['refused']} "
              f"connect-refused={stats['con_refused']} states-connected-under-other-engines-data={len(stats['foreign'])}")
@@ -335,7 +345,8 @@ def run(ctx):
              "equal ids; non-trivial = a pair in which a name contains '_', '/', '%' or space.  (b) BFS over register/connect/"
              "disconnect of the clients on the real handlers, canonical states deduplicated",
         samples=[["a_", "b"], ["a", "_b"], ["a/", "% "], [list(e) for e in (res.histories[-1] if res.histories else ())]],
-        states=res.states, transitions=res.transitions, bfs_depth=depth, bfs_max_depth_reached=res.max_depth,
+        states=res.states + res2.states, transitions=res.transitions + res2.transitions, bfs_depth=depth,
+        second_bfs_clients=[list(p) for p in pairs2], bfs_max_depth_reached=res.max_depth,
         bfs_state_space_closed=res.complete, bfs_clients=[list(p) for p in pairs],
         register_refused_while_connected=stats["refused"], connect_refused=stats["con_refused"],
         states_connected_under_other_engines_data=len(stats["foreign"]), distinct_outcomes=len(stats["outcomes"]),
